@@ -44,7 +44,7 @@ reg(
 reg(
     "C04",
     "Model-based testing: Hypothesis-generated operation histories against a `started` model and a freshly constructed twin instance per utterance (bit-identical outputs)",
-    "Histories of up to 40 chunk/finalize/compute_full/frame_by_frame/refused calls on one instance with read-only inputs; any state leaking across utterances, a disturbed utterance or a modified input shows as a bit-level mismatch.",
+    "Histories of up to 40 chunk/finalize/compute_full/frame_by_frame/refused calls on one instance (also with a frame shift above the frame length, mixed-dtype refused calls, non-finite tails) with read-only or writable inputs, every array ever handed over being compared with a private copy after every later step; any state leaking across utterances, a disturbed utterance or a modified input shows as a bit-level mismatch.",
     "a fresh instance of the same configuration is the reference; empty results compared by shape only.",
 )
 reg(
@@ -63,18 +63,18 @@ reg(
 reg(
     "C06",
     "Hypothesis property-based testing of consistency relations between get_truncated_response (documented recipe), get_frequency_response and its half=True form",
-    "Generated (bank, filter, DFT width 2..4096 incl. widths below the bandwidth) triples; rebuilt response within 2x threshold (identical for triangular/Fbank), start bin range, half-spectrum containment, Hermitian symmetry, analytic zeros, finiteness.",
+    "Generated (bank, filter, DFT width 2..4096 incl. widths below the bandwidth) triples; rebuilt response within 2x threshold (identical for triangular/Fbank), start bin range, half-spectrum containment, Hermitian symmetry, analytic zeros, finiteness; earlier queries on the same bank (with results modified in place by the caller) and, exhaustively, every ordered triple of requests over two filters, two widths and three response methods compared with a fresh bank.",
     "the documented recipe is the specification; EFFECTIVE_SUPPORT_THRESHOLD read from config.",
 )
 reg(
     "C07",
     "Hypothesis property-based testing: inverse DFT of the frequency response vs the impulse response, and magnitudes outside the advertised supports",
-    "Generated (bank, filter, buffer width >= max(temporal support, 2*rate/bandwidth)) for zero-phase banks and gammatone order >= 3 without L2; agreement within 2x threshold, realness iff is_real, outside-support bounds, support placement. Found and now guards F07.",
+    "Generated (bank, filter, buffer width >= max(temporal support, 2*rate/bandwidth)) for zero-phase banks and gammatone order >= 3 without L2; agreement within 2x threshold, realness iff is_real, outside-support bounds, support placement; widths at which float-step grids miscount, round-vertex and Bark banks, and exhaustively every ordered triple of impulse / frequency requests over two filters and three widths compared with a fresh bank. Found and now guards F07.",
     "filters whose supports_hz span exceeds the sampling rate are outside the statement (no buffer resolves them); buffers capped at 8192 samples.",
 )
 reg(
     "C09",
-    "Hypothesis property-based testing of both command-line tools (in-process) against a reference pipeline built from explicit NumPy objects; metamorphic clauses for config syntax and --seed",
+    "Hypothesis property-based testing of both command-line tools (in-process; repeated runs also in a new interpreter with another PYTHONHASHSEED) against a reference pipeline built from explicit NumPy objects; metamorphic clauses for config syntax and --seed",
     "Generated utterance sets (containers, channels, too-short signals, rate mismatch, --min-duration, --channel, --manifest, --num-workers), computer/pre/post configurations in three syntaxes; stored ids and matrices must equal the library pipeline. Found and now guards F09a/F09b.",
     "float32 storage tolerance 2e-4; dither>0 only in the fixed-seed metamorphic clause; reference-pipeline failures define the domain (discarded, counted).",
 )
@@ -87,31 +87,31 @@ reg(
 reg(
     "C12",
     "Hypothesis round-trip testing with an independent SPHERE writer and an independent ITU-T G.711 decoder; exhaustive enumeration of both code tables",
-    "Generated codings x channels 1..8 x sample counts around the 16 KiB read boundaries x header sizes/layouts x dtypes x access paths; truncated data sections; all 256 codes x 2 laws; malformed headers. Found and now guards F12a/F12b.",
+    "Generated codings x channels 1..8 (and 17, 64) x sample counts around the 16 KiB read boundaries (and > 2.5 MiB) x header sizes/layouts/padding bytes/optional fields x dtypes x access paths (path, bare name, open file, BytesIO, descriptor-named, unnamed and gzip streams); truncated data sections; all 256 codes x 2 laws; malformed headers. Found and now guards F12a/F12b.",
     "own writer and G.711 segment formulas (self-tested) are the reference.",
 )
 reg(
     "C13",
     "Hypothesis round-trip testing with an independent randomised shorten v1/v2 encoder (validated bit-for-bit against the six sph2pipe vectors); exhaustive prefix truncation for the error contract",
-    "Generated encoder programs (version, type, channels, block sizes, nmean, maxnlpc, per-block command/LPC coefficients/residual width, BLOCKSIZE/BITSHIFT commands, long multi-refill streams) must decode to the encoded samples; reference vectors equal their WAVs; every strict prefix, undefined commands and versions raise IOError. Found and now guards F13a/F13b.",
+    "Generated encoder programs (version, sample type incl. both mu-law types, channels, block sizes, nmean, maxnlpc, per-block command/LPC coefficients/residual width, BLOCKSIZE/BITSHIFT commands, long multi-refill streams) must decode to the encoded samples; reference vectors equal their WAVs; every strict prefix, undefined commands and versions raise IOError. Found and now guards F13a/F13b.",
     "own encoder is the reference (self-test against shipped vectors); mu-law with non-zero bit shift not generated.",
 )
 reg(
     "C15",
     "Hypothesis property-based testing against explicit-loop reference models of the Kaldi delta recursion and the Stack layout",
-    "Generated tensors (1-4 dims, empty axes, int/float dtypes), axes incl. negative, num_deltas, context windows, four pad modes, num_vectors incl. more than the frame count; 2-D and N-D paths cross-checked; inputs unchanged.",
+    "Generated tensors (1-4 dims, empty axes, int/float dtypes), axes incl. negative, num_deltas, context windows, all numpy pad modes (four from own index maps, the others with numpy.pad on the whole axis as reference), non-finite and 2**1020-scaled data, sibling objects built before and after, num_vectors incl. more than the frame count; 2-D and N-D paths cross-checked; inputs unchanged.",
     "own padding index maps replicate numpy.pad semantics for the four generated modes (self-tested).",
 )
 reg(
     "C16",
     "Hypothesis property-based testing over accumulate histories (partitions/permutations/presentations of a data set) against longdouble moments; metamorphic additivity",
-    "apply == (x-mean)/std for any split, order and axis presentation; own-statistics mode gives mean 0 / variance 1; float64 result; ValueError on dimension mismatch; input untouched unless in_place.",
+    "apply == (x-mean)/std for any split, order and axis presentation; own-statistics mode gives mean 0 / variance 1; float64 result; ValueError on dimension mismatch; input untouched unless in_place; statistics also applied after a save / load (all file kinds, files written by another program in the Kaldi layout, three loads with an accumulate in between), data sets of up to 5000 vectors, float16 / longdouble / unsigned features.",
     "variances kept >= 1e-3 by construction (the isclose-to-zero replacement is not part of the statement).",
 )
 reg(
     "C17",
     "Hypothesis property-based testing over save/reload histories per file kind (round trip of the transform), including repeated saves and foreign archive entries",
-    "save -> Standardize(rfilename) -> identical apply for .npy/.npz(key, compress)/raw; repeated saves succeed; overwrite flag decides whether other npz entries are kept (either direction accepted, must be consistent); ValueError without statistics. Found and now guards F17a/F17b.",
+    "save -> Standardize(rfilename) -> identical apply for .npy/.npz(key, compress)/raw; repeated saves succeed; overwrite flag decides whether other npz entries are kept (either direction accepted, must be consistent); ValueError without statistics; a second writer (also of another dimension) between saves, bare file names, all-digit keys, re-saves by the reloaded object. Found and now guards F17a/F17b.",
     "temporary directories per case.",
 )
 
@@ -124,20 +124,20 @@ reg(
 reg(
     "C10",
     "Fault enumeration: fork-based kill/interrupt injection at every (utterance, phase, kind) crash point of signals-to-torch-feat-dir, invariants after the crash and after resume against an uninterrupted reference run; Hypothesis-generated crash histories and worker counts",
-    "Complete crash-point grid (k x {before_save, mid_write, after_save, after_manifest} x {hard, soft}) for 1..5 utterances x workers {0,2} in the thorough tier (3 utterances in quick), generated single crashes, histories of 2-3 successive crashes, and worker-count independence with drawn per-item delays; dither > 0 with a fixed --seed throughout. Found and now guards F10a/F10b.",
+    "Complete crash-point grid (k x {before_save, mid_write, after_save, after_manifest} x {hard, soft}) for 1..5 utterances x workers {0,2} in the thorough tier (3 utterances in quick), generated single crashes, histories of 2-3 successive crashes, and worker-count independence with drawn per-item delays; dither > 0 with a fixed --seed throughout; resumes also in a new interpreter (another PYTHONHASHSEED), --file-prefix/--file-suffix, blank map lines, a short-integration computer with zero-frame utterances, a map of 261 utterances. Found and now guards F10a/F10b.",
     "hard kill = os._exit at Python-level points (a kill inside a write() system call cannot be injected); worker schedules perturbed, not enumerated.",
     category="fault_enumeration",
 )
 reg(
     "C18",
     "Hypothesis property-based testing: explicit float64 recurrence oracle for Preemphasize, metamorphic and statistical relations for Dither",
-    "All lengths 0..64 x float/int dtypes x coefficients x in_place x memory layouts; dither: noise independent of the signal, linear in coeff, identity at 0, reproducible under numpy.random.seed, 6-sigma moments on 2e5 draws; inputs untouched unless in_place.",
+    "All lengths 0..64 (and to 100003) x float/int/unsigned dtypes in either byte order x coefficients x in_place x memory layouts x construction routes (class, alias, mapping); dither: noise independent of the signal, linear in coeff, identity at 0, reproducible under numpy.random.seed, 6-sigma moments on 2e5 draws; inputs untouched unless in_place.",
     "int64 beyond 2^53 judged against the documented float64 intermediate; statistics deterministic per VERIF_SEED.",
 )
 reg(
     "C20",
     "Hypothesis property-based testing plus exhaustive width grids against own closed forms (windows), a direct-summation inverse DFT (circshift_fourier) and 50-digit mpmath (gauss_quant)",
-    "Every window class for all widths 0..64 (thorough 0..512) and generated widths to 4096; circshift over segment/start/dft_size (default None, fitting, wrapping)/shift/dtype/copy; gauss_quant accuracy, monotonicity and affinity across (1e-20, 1-1e-16); hertz/angular round trips. Found and now guards F20.",
+    "Every window class (by class and by each alias) for all widths 0..64 (thorough 0..512) and generated widths to 4096 incl. those at which float-step grids miscount, gamma parameters also assigned after construction; circshift over segment/start/dft_size (default None, fitting, wrapping)/shift/dtype/copy; gauss_quant accuracy, monotonicity and affinity across (1e-20, 1-1e-16); hertz/angular round trips. Found and now guards F20.",
     "widths 0 and 1 judged for length and sign only (degenerate area); GammaWindow order 1 judged as a reversed exponential only.",
 )
 
